@@ -15,7 +15,9 @@ LEVEL_TEXT = ("dpop, syncbb, mgm, mgm2, dsa, adsa, dsatuto, dba, gdba, maxsum an
               "be mistaken for costs or indexes (strings, ints >= 100, plus ordinary small ints), under generated "
               "start/delivery schedules; A-DSA's periodic actions are fired by the virtual clock. A class-level "
               "wrapper around VariableComputation.value_selection checks every call's value, and after every step "
-              "every computation's current_value must be None or a domain member. Sampling of inputs x schedules.")
+              "every computation's current_value must be None or a domain member. A quarter of the cases (and two whole shards) are "
+              "tie DCOPs: costs 0/1/2, one domain per variable with values no other variable has, int, str and mixed. "
+              "Sampling of inputs x schedules.")
 LEVEL_NOTE = ("Trusted: SimNet model. Runs are bounded (step bound / stop_cycle / round count); an algorithm with zero "
               "runs in a check run is reported as a harness error, not as success.")
 RULE = ("case = algorithm + parameters + DCOP of the algorithm's class + schedule + seed; non-trivial = >=2 "
